@@ -127,13 +127,14 @@ theorem C11_fragments_mirror_flat (P : Prog) (ia : Bool) (cr : Nat) :
      nonWs (appTexts (events P ia cr).2) = nonWs (Spec.run P ia).runs.reverse.flatten
    "whenever the reference semantics of ISO 32000-1 assigns the page a sequence of shown runs, the
    operator loop emits exactly those characters, in painting order".
-   FALSE of the current code: `C11_witness_nested_actualtext`, `C11_witness_winansi_quotes`,
-   `C11_witness_inherited_font_name` below (findings C11-F1, F2, F3).  `C11_emission_partial`
-   proves it for every program on which the reference run meets none of the three situations. -/
+   FALSE of the current code: `C11_witness_nested_actualtext`, `C11_witness_inherited_font_name`
+   below (findings C11-F1, F3).  `C11_emission_partial` proves it for every program on which the
+   reference run meets neither situation.  (C11-F2, the WinAnsi quotes, is repaired: the hypothesis
+   that excluded codes 0x93/0x94 is gone; `C11_witness_winansi_quotes` is about the old table.) -/
 -/
 
 /-- The page is inside the property's domain (`ok`) and the reference run never (F1) opened an
-    `/ActualText` scope inside another one, (F2) showed WinAnsi code 0x93/0x94 in a simple font,
+    `/ActualText` scope inside another one,
     (F3) showed a non-empty string inside a form in the font inherited from the caller. -/
 abbrev Clean (P : Prog) (ia : Bool) : Prop := good (Spec.run P ia) = true
 
@@ -168,12 +169,14 @@ theorem C11_witness_nested_actualtext :
     nonWs (Spec.run W1 false).runs.reverse.flatten = [0x58] ∧
     nonWs (appTexts (events W1 false 0).2) = [0x59, 0x63] := by decide
 
-/-- C11-F2 (corpus/C11/f2_winansi_quotes.req): `<93 41 94> Tj` in a WinAnsi font — shown
-    U+201C A U+201D, emitted `"A"`. -/
+/-- C11-F2, REPAIRED (corpus/C11/f2_winansi_quotes.req is now a regression case): `<93 41 94> Tj` in
+    a WinAnsi font shows U+201C A U+201D; the table as it was before the repair (`winansiImplOld`)
+    gave `"A"`, the current one agrees with Annex D on W2 (and on every code: `winansi_agree`). -/
 theorem C11_witness_winansi_quotes :
-    (Spec.run W2 false).ok = true ∧
+    Clean W2 false ∧
     nonWs (Spec.run W2 false).runs.reverse.flatten = [0x201C, 0x41, 0x201D] ∧
-    nonWs (appTexts (events W2 false 0).2) = [0x22, 0x41, 0x22] := by decide
+    [0x93, 0x41, 0x94].map winansiImplOld = [0x22, 0x41, 0x22] ∧
+    nonWs (appTexts (events W2 false 0).2) = [0x201C, 0x41, 0x201D] := by decide
 
 /-- C11-F3 (corpus/C11/f3_inherited_font_name.req): the page selects /F0 (Latin) and paints a form
     whose own /F0 is a Greek font; the form shows `<0003>` without `Tf` — shown `A C`, emitted `A Γ`. -/
@@ -185,15 +188,19 @@ theorem C11_witness_inherited_font_name :
 def W4 : Prog := { fonts := [.simple], streams := [{ fmap := [0], xmap := [], ops :=
   [.bt, .tf 0, .other, .tj [0x61, 0x62, 0x2D, 0x2D], .quote [], .quote [], .quote [0x63], .et] }] }
 
-/-- C11-F4 (corpus/C11/f4_hyphen_chain.req), `merge_hyphenated` on (the default): `(ab--) Tj () ' () ' (c) '`
-    — shown `ab--c` on a page that meets none of F1–F3, extracted `abc` WHATEVER the geometry: every
-    line-wrap append with an empty text pops one more hyphen (`append_bounded` fuses without looking
-    at what it appends).  With the option off nothing is lost (`C11_extract_flat_order_partial`). -/
+/-- C11-F4, REPAIRED (corpus/C11/f4_hyphen_chain.req is now a regression case), `merge_hyphenated`
+    on (the default): `(ab--) Tj () ' () ' (c) '` — shown `ab--c`.  `append_bounded` as it was before
+    the repair (`appendBoundedOld`) popped a hyphen for each of the two empty line-wrap appends
+    (`ab--` → `ab-` → `ab`); the current one leaves the text alone and WHATEVER the geometry the
+    page keeps both hyphens. -/
 theorem C11_witness_hyphen_chain :
     Clean W4 false ∧
     nonWs (Spec.run W4 false).runs.reverse.flatten = [0x61, 0x62, 0x2D, 0x2D, 0x63] ∧
-    ∀ F : FlatΩ, nonWs (consume F true false none (events W4 false 0).2).text = [0x61, 0x62, 0x63] := by
-  refine ⟨by decide, by decide, ?_⟩
+    appendBoundedOld [0x61, 0x62, 0x2D, 0x2D] (some NL) [] none true = some ([0x61, 0x62, 0x2D], none) ∧
+    appendBoundedOld [0x61, 0x62, 0x2D] (some NL) [] none true = some ([0x61, 0x62], none) ∧
+    ∀ F : FlatΩ, nonWs (consume F true false none (events W4 false 0).2).text
+      = [0x61, 0x62, 0x2D, 0x2D, 0x63] := by
+  refine ⟨by decide, by decide, by decide, by decide, ?_⟩
   intro F
   have e : (events W4 false 0).2 = [.app .tj [0x61, 0x62, 0x2D, 0x2D], .frag [0x61, 0x62, 0x2D, 0x2D],
       .app .nl [], .app .nl [], .app .nl [0x63], .frag [0x63]] := by decide
@@ -201,13 +208,13 @@ theorem C11_witness_hyphen_chain :
   simp [consume, consumeFrom, consume1, sepFor, appendBounded, groupAfter, recordGroup,
     sepList, nonWs, isWs, HY, NL]
 
-/-- the three witnesses refute the FULL statement -/
+/-- an open witness refutes the FULL statement -/
 theorem C11_full_statement_fails :
     ¬ (∀ P ia cr, (Spec.run P ia).ok = true →
         nonWs (appTexts (events P ia cr).2) = nonWs (Spec.run P ia).runs.reverse.flatten) := by
   intro h
-  have := h W2 false 0 C11_witness_winansi_quotes.1
-  rw [C11_witness_winansi_quotes.2.1, C11_witness_winansi_quotes.2.2] at this
+  have := h W3 false 0 C11_witness_inherited_font_name.1
+  rw [C11_witness_inherited_font_name.2.1, C11_witness_inherited_font_name.2.2] at this
   exact absurd this (by decide)
 
 /-! ## 4. end to end: `extract_from_page` -/
@@ -215,8 +222,8 @@ theorem C11_full_statement_fails :
 /- FULL:
    ∀ P o F Ω C geom, (Spec.run P o.ia).ok →
      nonWs (extract P o F Ω C geom).text ~ nonWs (Spec.run P o.ia).runs.reverse.flatten
-   Missing in `C11_extract_text_partial`: the three defects above (`Clean`); `merge_hyphenated`
-   (removes run-final hyphens by design — and more than that: `C11_witness_hyphen_chain`, C11-F4) and `max_extracted_bytes` (keeps a prefix by design) — their
+   Missing in `C11_extract_text_partial`: the two open defects above (`Clean`); `merge_hyphenated`
+   (removes run-final hyphens by design) and `max_extracted_bytes` (keeps a prefix by design) — their
    exact effect is `C11_budget_respected` / `C11_budget_prefix` and the optional-hyphen pattern the
    run-time oracle checks; the XY-cut reading-order path is covered at the permutation level only
    (`C11_xycut_permutes`). -/
